@@ -9,6 +9,7 @@ import random
 
 from mpv import syntax
 
+ANCHORS = ['mpilot/parser/parser.py:Parser.parse', 'mpilot/parser/parser.py:Lexer.t_STRING', 'mpilot/parser/parser.py:Lexer.t_FLOAT', 'mpilot/parser/parser.py:Parser.p_plain_string_with_number', 'mpilot/parser/parser.py:Parser.p_tuple_pair', 'mpilot/parser/parser.py:Parser.p_error', 'mpilot/parser/parser.py:Lexer.t_error']   # repository functions the workload must enter (reported as anchors_reached / anchors_missed)
 LEVEL = "exploration"
 RULE = ("random abstract programs (1-8 commands, 0-6 arguments; ints, decimals in every spelling, quoted strings with delimiters / "
         "quotes / escapes / non-ASCII, unquoted words, sentences, paths, URLs, lists nested <=3, tuples) x random renderings; plus "
